@@ -62,6 +62,9 @@ check("C14","explicit-state over handler histories: every sequence of <=4 (thoro
 check("C17","bounded-exhaustive: a Swagger 2.0 skeleton plus every single feature (quick) / every compatible pair of features (thorough) out of ~110 feature instances; ToV3 must validate and keep the API-description normal form, FromV3(ToV3(d)) must keep it too and only use Swagger 2.0 reference locations; under both map orders",
  "normal form mc/ref/apinf.go (fields without counterpart excluded; shared objects dereferenced; schema references by name)",
  "bounded exhaustive enumeration of documents on the real converters against a normal-form model","3 C17")
+check("C18","bounded-exhaustive over Go types: every unnamed type of the grammar (16 leaf kinds, pointer, slice, map, one- and two-field structs with JSON tags) within a constructor budget of 2 (quick) / 3 (thorough), built by reflection, plus 21 hand-declared named/embedding/recursive types; boundary values per kind with one field varied at a time; three generator option sets; the encoding/json output of every value must validate against the generated schema once the returned component map is installed in a document and loaded",
+ "encoding/json is the other program; nil slices/maps and values encoding as null are excluded as the property says; named types are a listed set, not an enumeration",
+ "bounded exhaustive enumeration of (type, value, options) relating two programs (encoding/json and the schema generator)","3 C18")
 NA_REASON="check not built yet (work in progress; see DESIGN.md section 5)"
 m={"version":1,"setup_cmd":"bin/setup",
  "hooks":{"guard":"verif","enable":"go build -tags verif -overlay <generated> (bin/check does it on every invocation, regenerating the overlay from /repo's working tree)","baseline_off_cmd":"bin/baseline","source_commits":["4b7cd63"],"add_only":True},
